@@ -63,6 +63,20 @@ class ParserExec(HeapExec):
                 s.decl[n.target.id] = kind
                 p.env[n.target.id] = None
                 return [(p, None)]
+        if isinstance(n, ast.Expr) and isinstance(n.value, ast.Call) and isinstance(n.value.func, ast.Attribute) and n.value.func.attr == "append" \
+                and isinstance(n.value.func.value, ast.Name) and isinstance(p.env.get(n.value.func.value.id), SeqV) and len(n.value.args) == 1:
+            # xs.append(v): new == xs ++ [v], given to the solver with the ground consequences it needs (length, last element, elements at
+            # the skolem indices of the goal) - z3's sequence solver is unstable when it has to derive them itself (spike S11)
+            nm = n.value.func.value.id
+            cur = p.env[nm]
+            v = s.unwrap(cur.kind, s.ev(p, n.value.args[0]), n)
+            ln = z3.Length(cur.q)
+            new = z3.FreshConst(cur.q.sort(), nm + "@app")
+            p.pc += [new == z3.Concat(cur.q, z3.Unit(v)), z3.Length(new) == ln + 1, new[ln] == v]
+            for j in list(getattr(s, "skolems", [])) + [ln - 1, ln - 2]:
+                p.pc.append(z3.Implies(z3.And(j >= 0, j < ln), new[j] == cur.q[j]))
+            p.env[nm] = SeqV(new, cur.kind)
+            return [(p, None)]
         if isinstance(n, ast.Expr) and isinstance(n.value, ast.Call) and isinstance(n.value.func, ast.Attribute) and n.value.func.attr == "pop" \
                 and isinstance(n.value.func.value, ast.Name) and isinstance(p.env.get(n.value.func.value.id), SeqV):
             s.ev(p, n.value)
@@ -122,12 +136,23 @@ class ParserExec(HeapExec):
             cur = p.env[f.value.id]
             n = z3.Length(cur.q)
             s.oblige(f"safety/line{e.lineno - s.fn_line}:pop from a non-empty {f.value.id}", p, n > 0)
-            p.env[f.value.id] = SeqV(z3.Extract(cur.q, 0, n - 1), cur.kind)
-            return s.wrap(cur.kind, cur.q[n - 1])
+            # cur == rest ++ [top] for fresh rest/top (exists because n > 0); z3's Extract is avoided (unstable with length arithmetic, spike S11)
+            rest = z3.FreshConst(cur.q.sort(), f.value.id + "@rest")
+            top = cur.q[n - 1]
+            p.pc += [cur.q == z3.Concat(rest, z3.Unit(top)), z3.Length(rest) == n - 1]
+            for j in list(getattr(s, "skolems", [])) + [n - 2, n - 3]:
+                p.pc.append(z3.Implies(z3.And(j >= 0, j < n - 1), rest[j] == cur.q[j]))
+            p.env[f.value.id] = SeqV(rest, cur.kind)
+            return s.wrap(cur.kind, top)
         if isinstance(f, ast.Attribute) and isinstance(f.value, ast.Constant) and isinstance(f.value.value, str) and f.attr == "join":
             if f.value.value != " ":
                 raise Unsupported("join with another separator")
-            v = s.ev(p, e.args[0])
+            try:
+                v = s.ev(p, e.args[0])
+            except Unsupported:
+                if isinstance(e.args[0], ast.GeneratorExp) and "str(" in ast.unparse(e.args[0]):
+                    return "<message>"            # text of an error message (A-MSG)
+                raise
             if isinstance(v, SeqV) and v.kind == "str":
                 return StrV(join_fn(v.q))
             if isinstance(v, str):        # opaque message
